@@ -150,6 +150,7 @@ type Op struct {
 // Event is one record in the event log. Fields are interpreted by Kind.
 type Event struct {
 	Seq  uint64 `json:"s"`
+	W    int64  `json:"w,omitempty"` // wall-clock nanoseconds since the monitor was created (measured preconditions only)
 	Kind string `json:"k"`
 	Node string `json:"n,omitempty"`
 	Inc  int    `json:"i,omitempty"`
@@ -207,6 +208,7 @@ const (
 	KFatal      = "fatal" // Str = message
 	KNote       = "note"
 	KBoot       = "boot" // Cfg = bootstrap configuration (static voters)
+	KLeaseOverlap = "lease.overlap" // Node became leader of Term while Str still reports leader (term Idx) with a valid lease
 	KPuppet      = "puppet"       // puppet mode on
 	KWorldCommit = "world.commit" // Ents declared committed by the scripted world
 	KWorldSnap   = "world.snap"   // a snapshot a scripted sender has (Idx, Term, Num=size, Hash, Cnt, Chn)
